@@ -16,9 +16,11 @@ Locs     == {"short", "long/er/nested/path"}                           \* where 
 Invokes  == {"dot", "subdir", "dotdotdot", "importpath"}               \* working directory / pattern naming the package
 Company  == {"alone", "with-others"}                                   \* other packages processed in the same invocation
 Programs == {"many", "small", "values"}
+\* the options are part of the "fixed sources and options": runs are compared per (program, tags)
+TagOpts  == {"", "verifx"}
 
-Config(l, loc, inv, co, r) == [layout |-> l, loc |-> loc, invoke |-> inv, company |-> co, rep |-> r]
-AllConfigs == {Config(l, loc, inv, co, r) : l \in Layouts, loc \in Locs, inv \in Invokes, co \in Company, r \in 1..Reps}
+Config(l, loc, inv, co, tg, r) == [layout |-> l, loc |-> loc, invoke |-> inv, company |-> co, tags |-> tg, rep |-> r]
+AllConfigs == {Config(l, loc, inv, co, tg, r) : l \in Layouts, loc \in Locs, inv \in Invokes, co \in Company, tg \in TagOpts, r \in 1..Reps}
 
 VARIABLE c
 Init == c \in AllConfigs
